@@ -1,8 +1,11 @@
 ------------------------------ MODULE MC_Mxss ------------------------------
 (* Bounded-exhaustive exploration of the COMPOSED specification                               *)
 (*    parse -> walk -> sanitize -> [omit optional tags] -> serialize -> re-parse              *)
-(* over inputs that are concatenations of <= depth fragments of a mutation-XSS alphabet      *)
-(* (every prefix is a state; one exploration per entry of Cfg.runs = [alphabet, depth, lists]).  In every state, for every first-parse mode x option vector x   *)
+(* over inputs  pre \o fragments \o post  where fragment k is drawn from the alphabet named   *)
+(* alphas[k] (every prefix is a state; one exploration per entry of                            *)
+(* Cfg.runs = [alphas, lists, pre, post, plan]): markup fragments of the mutation-XSS          *)
+(* alphabets, and attribute VALUES (character-reference spellings behind a scheme name; long   *)
+(* values with the quoting hazard in the tail, lengths around the size literals of the code).  In every state, for every first-parse mode x option vector x   *)
 (* re-parse mode of the configuration file: the property (SafeTree and Corresponds on the     *)
 (* re-parsed tree) - a theorem of the intended configuration (KnownDefects = {}) - and the    *)
 (* export of the behaviour (input, output text, flat re-parsed trees, violated clauses) for   *)
@@ -19,7 +22,7 @@ NsDec(x) == CASE x = <<-2>> -> NS_html [] x = <<-3>> -> NS_svg [] x = <<-4>> -> 
 Pairs(s) == {<<NsDec(s[i][1]), s[i][2]>> : i \in 1..Len(s)}
 Lof(r) == [el |-> Pairs(r.el), at |-> Pairs(r.at), uri |-> Pairs(r.uri), ref |-> Pairs(r.ref), loc |-> ToSet(r.loc),
            prot |-> ToSet(r.prot), ct |-> ToSet(r.ct), cp |-> ToSet(r.cp), ck |-> ToSet(r.ck), sp |-> ToSet(r.sp)]
-\* Cfg.runs: Seq of [alphabet, depth, lists]: the explorations of this TLC run (one initial state each)
+\* Cfg.runs: Seq of [alphas, lists, pre, post, plan]: the explorations of this TLC run (one initial state each)
 LDefault  == Lof(Cfg.lists.default)
 LExtended == Lof(Cfg.lists.extended)
 Firsts == Cfg.firsts            \* Seq of [cx, scr]
@@ -29,8 +32,9 @@ Reparses == Cfg.reparses        \* Seq of [cx, scr]
 VARIABLES src, n, run
 vars == <<src, n, run>>
 Init == src = <<>> /\ n = 0 /\ run \in 1..Len(Cfg.runs)
-Next == /\ n < Cfg.runs[run].depth /\ UNCHANGED run
-        /\ \E f \in ToSet(Cfg.alphabets[Cfg.runs[run].alphabet]) : src' = src \o f /\ n' = n + 1
+Next == /\ n < Len(Cfg.runs[run].alphas) /\ UNCHANGED run
+        /\ \E f \in ToSet(Cfg.alphabets[Cfg.runs[run].alphas[n + 1]]) : src' = src \o f /\ n' = n + 1
+Source == Cfg.runs[run].pre \o src \o Cfg.runs[run].post
 L == IF Cfg.runs[run].lists = "default" THEN LDefault ELSE LExtended
 
 \* Next to the configured pipeline (KnownDefects of the .cfg: {} = the intended design, or the listed deviations = the
@@ -48,7 +52,7 @@ SubKeys(a, b) == SubFrom(a, b, 1, 1)
 
 \* Cfg.plan: Seq of [f: index into Firsts, o: index into Opts, rs: Seq of indices into Reparses]
 Plan == Cfg.plan
-First(fi) == Parse(src, Firsts[fi].cx, Firsts[fi].scr)
+First(fi) == Parse(Source, Firsts[fi].cx, Firsts[fi].scr)
 JudgeOut(out, ps, rs) ==
     [j \in 1..Len(rs) |->
         LET rp == Reparses[rs[j]]
@@ -67,11 +71,13 @@ Entry(pi) ==
         jI   == IF same THEN jC ELSE JudgeOut(outI, Passed(stI), e.rs)
     IN [out |-> outC, rp |-> jC, iout |-> outI, isame |-> same, iok |-> \A j \in 1..Len(jI) : jI[j].cl = {},
         npass |-> Len(Passed(stC)), sub |-> SubKeys(Passed(stI), Passed(stC))]
-Runs == [pi \in 1..Len(Plan) |-> Entry(pi)]
+\* the entries of the plan this exploration uses
+Mine == Cfg.runs[run].plan
+Runs == [k \in 1..Len(Mine) |-> Entry(Mine[k])]
 
 \* THE THEOREM (intended design): the re-parsed tree is safe and every element corresponds to a passed tag
-ThmSafeAndCorresponds == \A pi \in 1..Len(Plan) : Runs[pi].iok
+ThmSafeAndCorresponds == \A k \in 1..Len(Mine) : Runs[k].iok
 \* the intended design only ever escapes MORE than the code: what it lets through, the code lets through
-ThmIntendedOnlyEscapesMore == \A pi \in 1..Len(Plan) : Runs[pi].sub
+ThmIntendedOnlyEscapesMore == \A k \in 1..Len(Mine) : Runs[k].sub
 ThmExport == Export => PrintT(ToJson([src |-> src, run |-> run, runs |-> Runs]))
 =============================================================================
